@@ -17,7 +17,7 @@ def run(m, chk):
         "the limits comparison raising ValueError dominates the computation in ImmutableKnotVector.__or__/__and__ (GATE), and the result depends on both operands (DEP-MAY). "
         "That | is the common refinement is not decided (and is false for different degrees, DESIGN §5)."
     )
-    chk.decides = ["PURE", "FRESH", "GATE(limits ⇒ ValueError)", "DEP-MAY both operands"]
+    chk.decides = ["PURE", "FRESH", "GATE(limits ⇒ ValueError)", "DEP-MAY both operands", 'BOTH-MULTS (multiplicities of both operands consulted)', 'MULT-KEEP']
     chk.not_decided = ["U|V is the coarsest common refinement (wrong for different degrees — out of static reach)", "commutativity / idempotence as values"]
     for q in (KV + ".__or__", KV + ".__and__", IKV + ".__or__", IKV + ".__and__"):
         r.pure("PURE", q, ["self", "other"])
